@@ -23,6 +23,15 @@ have e : alpha = L^T *m x.
 by rewrite -Sx -LLt e !trmx_mul trmxK !mulmxA.
 Qed.
 
+(* two different right-hand sides: (L^-1 r)^T (L^-1 s) = r^T S^-1 s  (the conditioned kernel k - K1^T K2) *)
+Lemma bilin_form_factor c1 c2 (a r : 'M[F]_(n, c1)) (b s x : 'M[F]_(n, c2)) :
+  L *m a = r -> L *m b = s -> S *m x = s -> a^T *m b = r^T *m x.
+Proof.
+move=> La Lb Sx.
+have e : b = L^T *m x by apply: (can_inj (mulKmx Lunit)); rewrite Lb mulmxA LLt Sx.
+by rewrite e -La trmx_mul !mulmxA.
+Qed.
+
 (* solving with L then with L^T solves with S *)
 Lemma solve_two_steps c (alpha z r : 'M[F]_(n, c)) : L *m alpha = r -> L^T *m z = alpha -> S *m z = r.
 Proof. by move=> La Lz; rewrite -LLt -mulmxA Lz. Qed.
@@ -42,6 +51,78 @@ Lemma cond_cov_factor (L S : 'M[F]_n) (Ks A X : 'M[F]_(n, nt)) (C : 'M[F]_nt) :
   L *m L^T = S -> L \in unitmx -> L *m A = Ks -> S *m X = Ks -> C - A^T *m A = C - Ks^T *m X.
 Proof. by move=> LLt Lu LA SX; rewrite (quad_form_factor LLt Lu LA SX). Qed.
 End Conditional.
+
+(* ---------------- C13: sequential conditioning = joint conditioning (Schur-complement elimination) ----------------
+   Blocks 1, 2 are two batches of observations, t the test points.  The joint solve is stated block-wise
+   (S11 x1 + S12 x2 = r1, S21 x1 + S22 x2 = r2), so no block-matrix casts are needed; c columns at once,
+   so the same lemma gives the predictive mean (c = 1, r = y - m) and the predictive covariance (r = S.t). *)
+Section Sequential.
+Variables (F : fieldType) (n1 n2 nt c : nat).
+Variables (S11 : 'M[F]_n1) (S12 : 'M[F]_(n1, n2)) (S21 : 'M[F]_(n2, n1)) (S22 : 'M[F]_n2).
+Variables (St1 : 'M[F]_(nt, n1)) (St2 : 'M[F]_(nt, n2)).
+Hypothesis S11u : S11 \in unitmx.
+(* after conditioning on batch 1 *)
+Definition S22c := S22 - S21 *m invmx S11 *m S12.          (* covariance of batch 2 given batch 1 *)
+Definition St2c := St2 - St1 *m invmx S11 *m S12.          (* cross covariance test / batch 2 given batch 1 *)
+Hypothesis S22cu : S22c \in unitmx.
+
+Variables (r1 : 'M[F]_(n1, c)) (r2 : 'M[F]_(n2, c)).
+Definition a1 := invmx S11 *m r1.                          (* step-1 weights *)
+Definition r2c := r2 - S21 *m a1.                          (* batch-2 residual after step 1 *)
+Definition x2s := invmx S22c *m r2c.                       (* step-2 weights *)
+
+(* the joint solution is recovered from the two sequential solves *)
+Lemma joint_solution_unique (x1 : 'M[F]_(n1, c)) (x2 : 'M[F]_(n2, c)) :
+  S11 *m x1 + S12 *m x2 = r1 -> S21 *m x1 + S22 *m x2 = r2 ->
+  x2 = x2s /\ x1 = a1 - invmx S11 *m S12 *m x2s.
+Proof.
+move=> e1 e2.
+have x1E : x1 = a1 - invmx S11 *m S12 *m x2.
+  by rewrite /a1 -e1 mulmxDr mulKmx // -mulmxA addrK.
+have x2E : x2 = x2s.
+  apply: (can_inj (mulKmx S22cu)); rewrite /x2s mulKVmx // /r2c /a1 -e2 -e1.
+  rewrite [invmx S11 *m (_ + _)]mulmxDr mulKmx // [S21 *m (_ + _)]mulmxDr opprD addrACA subrr add0r.
+  by rewrite /S22c mulmxBl -!mulmxA.
+by split=> //; rewrite -x2E.
+Qed.
+
+(* predictive quantity at the test points: joint  St1 x1 + St2 x2  =  sequential  St1 a1 + St2|1 x2' *)
+Theorem sequential_eq_joint (x1 : 'M[F]_(n1, c)) (x2 : 'M[F]_(n2, c)) :
+  S11 *m x1 + S12 *m x2 = r1 -> S21 *m x1 + S22 *m x2 = r2 ->
+  St1 *m x1 + St2 *m x2 = St1 *m a1 + St2c *m x2s.
+Proof.
+move=> e1 e2; have [-> ->] := joint_solution_unique e1 e2.
+by rewrite /St2c mulmxBr mulmxBl !mulmxA addrAC addrA.
+Qed.
+
+(* the log-probability chain rule: quadratic forms add (symmetric covariance) ... *)
+Hypothesis S11sym : S11^T = S11.
+Hypothesis S12tr : S12^T = S21.
+Theorem sequential_quad (x1 : 'M[F]_(n1, c)) (x2 : 'M[F]_(n2, c)) :
+  S11 *m x1 + S12 *m x2 = r1 -> S21 *m x1 + S22 *m x2 = r2 ->
+  r1^T *m x1 + r2^T *m x2 = r1^T *m a1 + r2c^T *m x2s.
+Proof.
+move=> e1 e2; have [-> ->] := joint_solution_unique e1 e2.
+rewrite mulmxBr -addrA; congr (_ + _).
+rewrite /r2c linearB /= mulmxBl addrC; congr (_ - _).
+by rewrite /a1 !trmx_mul trmx_inv S11sym -S12tr trmxK !mulmxA.
+Qed.
+End Sequential.
+
+(* ... and determinants multiply: det [[S11,S12],[S21,S22]] = det S11 * det (S22 - S21 S11^-1 S12) *)
+Section SchurDet.
+Variables (F : fieldType) (n1 n2 : nat).
+Variables (S11 : 'M[F]_n1) (S12 : 'M[F]_(n1, n2)) (S21 : 'M[F]_(n2, n1)) (S22 : 'M[F]_n2).
+Hypothesis S11u : S11 \in unitmx.
+Theorem schur_det : \det (block_mx S11 S12 S21 S22) = \det S11 * \det (S22c S11 S12 S21 S22).
+Proof.
+have -> : block_mx S11 S12 S21 S22 =
+    block_mx 1%:M 0 (S21 *m invmx S11) 1%:M *m block_mx S11 S12 0 (S22c S11 S12 S21 S22).
+  rewrite mulmx_block !mul1mx !mul0mx ?mulmx0 ?addr0 ?add0r -mulmxA mulVmx // mulmx1.
+  by rewrite /S22c addrC subrK.
+by rewrite det_mulmx det_lblock !det1 !mul1r det_ublock.
+Qed.
+End SchurDet.
 
 Section Unit.
 Variables (R : rcfType) (n : nat) (L : 'M[R]_n).
